@@ -8,7 +8,7 @@ LEVEL = "proof"
 def gen_case(rng, i, tier):
     links = V.gen_links(rng, rng.choice([1, 2, 3]))
     total = sum(int(l.split(" ")[4]) for l in links)
-    ops = ["case %d" % i] + links + V.gen_splits(rng, links) + ["table", "ref 0", "refpk 0"]
+    ops = ["case %d" % i] + V.with_mux(rng, links) + V.gen_splits(rng, links) + ["table", "ref 0", "refpk 0"]
     chunks = [rng.choice([1, 2, 3, 7, 64, 255, 513, 2048, 4096, 100000]) for _ in range(3)]
     ops += ["open 0 1 %d" % chunks[0], "open 1 0 %d" % chunks[1], "open 2 0 %d" % rng.choice([1, 1, 2, chunks[2]])]
     for slot in (0, 1, 2):
